@@ -29,10 +29,12 @@ structure Write where
   ts : Nat
   deriving DecidableEq, Repr, Inhabited
 
-/-- the payload/stamp fit the on-disk field widths -/
-def Write.Ok (crc : Bytes → Nat) (w : Write) : Prop := (Entry.mk' crc w.data w.ts).Fits
+/-- the payload/stamp fit the on-disk field widths, and (v2, where `decode` rejects an empty
+    entry) the payload is not empty — `bincode::serialize` of a delta never is -/
+def Write.Ok (fmt : Format) (crc : Bytes → Nat) (w : Write) : Prop :=
+  (Entry.mk' fmt crc w.data w.ts).Fits ∧ (fmt = .v2 → w.data.length ≠ 0)
 
-instance (crc : Bytes → Nat) : DecidablePred (Write.Ok crc) := fun w => by
+instance (fmt : Format) (crc : Bytes → Nat) : DecidablePred (Write.Ok fmt crc) := fun w => by
   unfold Write.Ok; infer_instance
 
 /-- an ack that was sent: to whom, for which entry, with what result, and how many I/O calls had
@@ -55,10 +57,10 @@ def Actor.init (maxSize : Nat) : Actor :=
   { rot := Rot.init maxSize, pending := [], esync := 0, acks := [] }
 
 /-- `handle_message_always` for `WalMessage::Write` -/
-def Actor.handleWrite (fix : Bool) (φ : Nat → Outcome) (crc : Bytes → Nat) (a : Actor) (w : Write) :
+def Actor.handleWrite (fix : Bool) (φ : Nat → Outcome) (fmt : Format) (crc : Bytes → Nat) (a : Actor) (w : Write) :
     Actor :=
-  let e := Entry.mk' crc w.data w.ts
-  match Rot.append fix φ a.rot e with
+  let e := Entry.mk' fmt crc w.data w.ts
+  match Rot.append fix fmt φ a.rot e with
   | (r, none) => { a with rot := r, esync := a.esync + 1, pending := a.pending ++ [(w.id, e)] }
   | (r, some x) => { a with rot := r, acks := ⟨w.id, e, .err x, r.w.io⟩ :: a.acks }
 
@@ -77,34 +79,34 @@ inductive Ev where
   | flush
   deriving DecidableEq, Repr, Inhabited
 
-def Actor.step (fix : Bool) (φ : Nat → Outcome) (crc : Bytes → Nat) (a : Actor) : Ev → Actor
-  | .write w => Actor.handleWrite fix φ crc a w
+def Actor.step (fix : Bool) (φ : Nat → Outcome) (fmt : Format) (crc : Bytes → Nat) (a : Actor) : Ev → Actor
+  | .write w => Actor.handleWrite fix φ fmt crc a w
   | .flush => Actor.flush fix φ a
 
-def Actor.run (fix : Bool) (φ : Nat → Outcome) (crc : Bytes → Nat) (maxSize : Nat) (evs : List Ev) :
+def Actor.run (fix : Bool) (φ : Nat → Outcome) (fmt : Format) (crc : Bytes → Nat) (maxSize : Nat) (evs : List Ev) :
     Actor :=
-  evs.foldl (Actor.step fix φ crc) (Actor.init maxSize)
+  evs.foldl (Actor.step fix φ fmt crc) (Actor.init maxSize)
 
 /-- the schedule of `run_always_mode` when the writes arrive in bursts: messages of a burst are
     handled one after the other; as soon as `entries_since_sync` reaches
     `group_commit_max_entries` the batch is flushed; when the mailbox runs empty (and the wait
     times out) whatever is pending is flushed -/
-def Actor.runGroup (fix : Bool) (φ : Nat → Outcome) (crc : Bytes → Nat) (maxEntries : Nat)
+def Actor.runGroup (fix : Bool) (φ : Nat → Outcome) (fmt : Format) (crc : Bytes → Nat) (maxEntries : Nat)
     (a : Actor) (ws : List Write) : Actor :=
   Actor.flush fix φ
     (ws.foldl (fun a w =>
-      let a1 := Actor.handleWrite fix φ crc a w
+      let a1 := Actor.handleWrite fix φ fmt crc a w
       if maxEntries ≤ a1.esync then Actor.flush fix φ a1 else a1) a)
 
-def Actor.runGroups (fix : Bool) (φ : Nat → Outcome) (crc : Bytes → Nat) (maxSize maxEntries : Nat)
+def Actor.runGroups (fix : Bool) (φ : Nat → Outcome) (fmt : Format) (crc : Bytes → Nat) (maxSize maxEntries : Nat)
     (gs : List (List Write)) : Actor :=
-  gs.foldl (Actor.runGroup fix φ crc maxEntries) (Actor.init maxSize)
+  gs.foldl (Actor.runGroup fix φ fmt crc maxEntries) (Actor.init maxSize)
 
 /-- the store as it was after `t` I/O calls (`t = 0`: before the first one) -/
 def World.storeAt (w : World) (t : Nat) : Option Store := w.hist.reverse[t]?
 
 /-- entries WAL recovery returns after a crash that leaves `st` -/
-def durable (crc : Bytes → Nat) (st : Store) : List Entry := recoverAll crc (crashImage st)
+def durable (fmt : Format) (crc : Bytes → Nat) (st : Store) : List Entry := recoverAll fmt crc (crashImage st)
 
 end Wal
 end RedisVerif
